@@ -273,3 +273,45 @@ Theorem close_code_of_spec e :
                     | DNotConnected => None
                     end.
 Proof. destruct e; reflexivity. Qed.
+
+(* ---------- WebTransport data streams: the preamble is stripped exactly ---------- *)
+From WT.Model Require Import Emit.
+
+Theorem bi_accept_wt s rest t : session_ok s = true -> s <= varint_max ->
+  bi_accept (emit_bi_preamble s ++ rest) t = RHandWT s rest.
+Proof.
+  intros Hs Hm. unfold bi_accept, emit_bi_preamble.
+  assert (Hwf : frame_wf (mkframe KWebTransport [] (Some s)) = true).
+  { unfold frame_wf. cbn [fk fsid fpayload]. rewrite Hs. apply N.leb_le in Hm. rewrite Hm. reflexivity. }
+  unfold fuel_for. cbn [bi_first_frame].
+  rewrite (read_frame_async_known TBiRemote false _ rest t Hwf); [|unfold len, max_parse_payload; cbn; lia].
+  cbn [validate fk fsid]. reflexivity.
+Qed.
+
+Theorem uni_accept_wt_emit c s rest t : session_ok s = true -> s <= varint_max ->
+  uni_accept c (emit_uni_preamble s ++ rest) t = (RHandWT s rest, c).
+Proof. apply uni_accept_wt. Qed.
+
+(* GREASE frames before the signal on a bidirectional stream are skipped by the accept task *)
+Theorem bi_accept_grease_then_wt id p s rest t :
+  is_exercise id = true -> id <= varint_max -> len p <= max_parse_payload ->
+  session_ok s = true -> s <= varint_max ->
+  bi_accept (frame_write (mkframe (KExercise id) p None) ++ emit_bi_preamble s ++ rest) t = RClose EFrame.
+Proof.
+  (* the accept task skips GREASE frames, but the typestate has then seen a first frame:
+     a WebTransport signal that is not first is H3_FRAME_ERROR (stream.rs:213-229) *)
+  intros Hx Hid Hl Hs Hm. unfold bi_accept, emit_bi_preamble.
+  assert (Hwf1 : frame_wf (mkframe (KExercise id) p None) = true).
+  { unfold frame_wf. cbn [fk fsid]. rewrite Hx. apply N.leb_le in Hid. rewrite Hid. reflexivity. }
+  assert (Hwf2 : frame_wf (mkframe KWebTransport [] (Some s)) = true).
+  { unfold frame_wf. cbn [fk fsid fpayload]. rewrite Hs. apply N.leb_le in Hm. rewrite Hm. reflexivity. }
+  unfold fuel_for at 1. cbn [bi_first_frame].
+  rewrite (read_frame_async_known TBiRemote false _ _ t Hwf1 Hl).
+  cbn [validate fk].
+  destruct (length (frame_write (mkframe (KExercise id) p None) ++ frame_write (mkframe KWebTransport [] (Some s)) ++ rest)) eqn:EL.
+  - exfalso. rewrite app_length in EL. pose proof (frame_write_length (mkframe (KExercise id) p None)).
+    unfold frame_write_size in *. cbn [fk fsid fpayload fkind_id] in *. destruct (vsize_pos id) as [k Hk]. lia.
+  - cbn [bi_first_frame].
+    rewrite (read_frame_async_known TBiRemote true _ rest t Hwf2); [|unfold len, max_parse_payload; cbn; lia].
+    reflexivity.
+Qed.
